@@ -53,6 +53,9 @@ def run(ctx, sm, facts):
     run_specs(ctx, facts, 'C08', 'C08.b', ctx.tier, ctx.seed, floor=25)
     definite_failures(ctx, facts, sm, 'C08.c', FILES,
                       class_filter=lambda n: not n.startswith('FP') and n not in ('FixedPointComparator',))
+    ctx.rule('C08.f', 'constructors keep their own copy of list arguments (no aliasing of the caller\'s list)')
+    from ..leafrules import caller_list_aliasing
+    caller_list_aliasing(ctx, facts, 'C08.f', FILES)
     ctx.rule('C08.e', 'instance isolation in bitwise.py / relational.py: no mutable default / class-level container / memoised method carries state between instances')
     shared_instance_state(ctx, facts, 'C08.e', FILES)
     ctx.not_decided += ['widths and arities above the grid bound', 'Digit7Segment (display decoding table)',
